@@ -10,6 +10,7 @@ import (
 	"time"
 
 	"github.com/cnotch/ipchub/av/codec"
+	"github.com/cnotch/ipchub/utils/verifhook"
 	"github.com/cnotch/queue"
 	"github.com/cnotch/xlog"
 )
@@ -85,6 +86,8 @@ func NewDemuxer(video *codec.VideoMeta, audio *codec.AudioMeta, fw codec.FrameWr
 }
 
 func (demuxer *Demuxer) process() {
+	verifhook.Point("rtpdemuxer.enter", demuxer)
+	defer verifhook.Point("rtpdemuxer.exit", demuxer)
 	defer func() {
 		defer func() { // 避免 handler 再 panic
 			recover()
@@ -99,6 +102,7 @@ func (demuxer *Demuxer) process() {
 	}()
 
 	for !demuxer.closed {
+		verifhook.Point("rtpdemuxer.beforePop", demuxer)
 		p := demuxer.recvQueue.Pop()
 		if p == nil {
 			if !demuxer.closed {
@@ -134,6 +138,7 @@ func (demuxer *Demuxer) Close() error {
 	}
 
 	demuxer.closed = true
+	verifhook.Point("rtpdemuxer.close.flagged", demuxer)
 	demuxer.recvQueue.Signal()
 	return nil
 }
